@@ -1,9 +1,9 @@
-\* verification flow: node 1 verifies attestation 1 of node 2 (2 bit-pairs), honesty checks, duplicates, losses, time-outs
+\* thorough: four bit-pairs with a window of two: the next-challenge logic with honesty checks and pending time-outs
 SPECIFICATION Spec
 CONSTANTS
  Nodes = {1, 2} Adv = {} Requesters = {} Verifiers = {1}
- Values <- Vals1 NChunks = 2 Window = 10 Pre <- PreOwn2
- MaxReq = 0 MaxVer = 1 MaxHon = 1 MaxDup = 1 MaxDrop = 1 MaxAdv = 0 MaxTimeouts = 1 MaxTicks = 0
+ Values <- Vals1 NChunks = 2 Window = 2 Pre <- PreOwn4
+ MaxReq = 0 MaxVer = 1 MaxHon = 1 MaxDup = 0 MaxDrop = 1 MaxAdv = 0 MaxTimeouts = 1 MaxTicks = 0
  AdvKinds = {"junk", "data", "resp", "chal"} AdvResps = {0, 1, 2, 3}
  TickSteps = {}
  OnceOnly = TRUE CheckPeer = TRUE CheckHash = TRUE AskConsent = TRUE
